@@ -608,3 +608,110 @@ for _wa, _ih, _tag in [(True, True, "axis,tensor-indices"), (True, False, "axis,
     KERNELS.append(type("TakeShape_" + _tag, (TakeShape,), {"with_axis": _wa, "idx_has_shape": _ih, "id": f"C01.P.shape_take[{_tag}]",
                         "describe": "static shape of take(x, indices, axis) = x.shape[:axis] + indices.shape + x.shape[axis+1:] for every rank (numpy's rule); ValueError iff the axis is out of range"})())
 KERNELS.append(MatmulShape())
+
+
+class GetShapeK(Kernel):
+    """the helper that the other signature kernels use under contract"""
+    id = "C01.P.shape_get_shape"
+    prop = "C01"
+    file, module = F, M
+    qual = "_get_shape"
+    allowed_raises = ("ValueError",)
+    kind_ = "tensor"
+    describe = "_get_shape(x) = tuple(x.shape) for a traced tensor, () for a Python/numpy scalar, ValueError otherwise"
+
+    def setup(self, eng, bound=None):
+        self.n, self.sh = z3.Int("n"), z3.Array("shape_in", I, I)
+        if self.kind_ == "tensor":
+            x = SRec("tensor", shape=SSeq(self.sh, self.n, "int", "tuple"))
+            x.isa = ("tensor", "Tensor", "tracer.signature.classical.Tensor")
+        elif self.kind_ == "scalar":
+            x = SInt(z3.Int("scalar"))
+        else:
+            x = SConc("a string is neither a tensor nor a scalar")
+        return {"x": x}, [self.n >= 0], {}
+
+    def post(self, eng, out, p):
+        if isinstance(out, Raise):
+            eng.oblige("post:ValueError only for a value that is neither tensor nor scalar", p, z3.BoolVal(self.kind_ == "other"), "post")
+            return
+        r = eng.as_seq(out.v, p)
+        k = fresh("k")
+        if self.kind_ == "tensor":
+            eng.oblige("post:the shape tuple of the tensor", p, z3.And(r.n == self.n, z3.ForAll([k], z3.Implies(z3.And(0 <= k, k < self.n), z3.Select(r.arr, k) == z3.Select(self.sh, k)))), "post")
+        else:
+            eng.oblige("post:() for a scalar, no normal exit for anything else", p, z3.And(r.n == 0, z3.BoolVal(self.kind_ == "scalar")), "post")
+
+
+for _k in ("tensor", "scalar", "other"):
+    KERNELS.append(type("GetShape_" + _k, (GetShapeK,), {"kind_": _k, "id": f"C01.P.shape_get_shape[{_k}]"})())
+
+
+class SplitShape(_Sig):
+    qual = "split/inner"
+    allowed_raises = ("ValueError",)
+    npoints = 1
+
+    def setup(self, eng, bound=None):
+        self.common(eng)
+        x, self.rx, self.ax = _sym_tensor("x")
+        self.axis = z3.Int("axis")
+        self.pts = [z3.Int(f"split{i}") for i in range(self.npoints)]
+
+        def c_cast_list(e, p, av, kw):
+            p.ghost["cast"] = av
+            return SObj(fresh("tensors", Obj))
+
+        eng.contracts["tracer.cast"] = SContract(c_cast_list)
+        env = {"x": x, "arg1": STup([SInt(q) for q in self.pts], "list"), "kwargs": SDict({"axis": SInt(self.axis)}), "op": eng.contracts["op"], "cumulative": SBool(True), "argname_axis": SConc("axis")}
+        return env, [self.rx >= 0], {}
+
+    def post(self, eng, out, p):
+        rx, a = self.rx, self.axis
+        na = z3.If(a < 0, a + rx, a)
+        inr = z3.And(0 <= na, na < rx)
+        if isinstance(out, Raise):
+            eng.oblige("post:ValueError only for an axis out of range", p, z3.Not(inr), "post")
+            return
+        eng.oblige("post:normal exit only for an axis in range", p, inr, "post")
+        shapes = p.lookup("shapes") if p.has("shapes") else None
+        okk = isinstance(shapes, STup) and len(shapes.items) == self.npoints + 1
+        eng.oblige("post:one static shape per part (number of split points + 1)", p, z3.BoolVal(okk), "post")
+        if not okk:
+            return
+        bounds = [z3.IntVal(0)] + self.pts + [z3.Select(self.ax, na)]
+        k = fresh("k")
+        for i, sh in enumerate(shapes.items):
+            s = eng.as_seq(sh, p)
+            eng.oblige(f"post:part {i} has the input shape with the split axis replaced by the distance between consecutive split points", p,
+                       z3.And(s.n == rx, z3.ForAll([k], z3.Implies(z3.And(0 <= k, k < rx), z3.Select(s.arr, k) == z3.If(k == na, bounds[i + 1] - bounds[i], z3.Select(self.ax, k))))), "post")
+
+    def twin(self, tier):
+        import numpy as np
+        import einx._src.tracer as tracer
+        import einx._src.tracer.signature.classical.functions as Fn
+        T = tracer.signature.classical.Tensor
+        n, fails = 0, []
+
+        class L(list):
+            pass
+
+        f = Fn.split(lambda x, idx, **kw: T(None, ()), cumulative=True)
+        for shape in ((6,), (2, 6), (6, 2, 3)):
+            for axis in range(-len(shape), len(shape)):
+                if shape[axis] != 6:
+                    continue
+                for pts in ([2], [1, 4], [3, 3]):
+                    n += 1
+                    import einx._src.tracer as tr
+                    got = f(T(None, shape), pts, axis=axis)
+                    exp = [tuple(a.shape) for a in np.split(np.zeros(shape), pts, axis=axis)]
+                    gs = [tuple(int(v) for v in t.shape) for t in got]
+                    if gs != exp:
+                        fails.append({"detail": f"signature split(shape {shape}, {pts}, axis={axis}): static shapes {gs}, numpy gives {exp}"})
+        return n, fails[:3]
+
+
+for _np in (1, 2):
+    KERNELS.append(type(f"SplitShape{_np}", (SplitShape,), {"npoints": _np, "id": f"C01.P.shape_split[{_np} split point{'s' if _np > 1 else ''}]",
+                        "describe": "static shapes of split(x, cumulative split points, axis): one part per interval, each with the input shape except the split axis = distance between consecutive points (numpy's rule); ValueError iff the axis is out of range"})())
